@@ -6,6 +6,7 @@
 
 #include "../model/gf.hpp"
 #include "../model/refmodel.hpp"
+#include "utils/tbfperiodicshifter.hpp"
 
 #include <vector>
 #include <string>
@@ -48,6 +49,8 @@ struct Ctx {
     int base = 0;            // a cell of level l is 2^(base-l) leaf units wide
     bool periodic = false;
     bool topTree = false;    // kernel used by the periodic top tree (virtual levels)
+    const void* shifterIndex = nullptr;   // periodic runs: the space index object (type SpaceIndexType of the kernel) for the check of TbfPeriodicShifter
+    double boxWidths[4] = {0, 0, 0, 0};   //   and the box widths in the coordinate type
     int tagSrc = 0;          // weight tag of source particles
     int tagTgt = 0;          // weight tag of target particles (TSM: 1)
     bool logging = true;
@@ -373,6 +376,33 @@ public:
         if(ctx->logging) ctx->log.push_back(LogEntry{OpL2P, long(ctx->height - 1), coordOf(inLeafIndex), coordOf(inLeafIndex), 0});
     }
 
+    // C10 "images are presented to the kernels displaced by whole multiples of the box width": the library hands P2P the wrapped
+    // neighbour leaf and the position code; kernels that use positions obtain the displacement from TbfPeriodicShifter. The
+    // utility is evaluated on exactly the argument tuples the executors pass and compared with the definition: dimension d is
+    // displaced by -W_d / +W_d iff the unwrapped neighbour coordinate target + offset falls below 0 / beyond the grid.
+    template <class SymbSrc, class SymbTgt>
+    void checkShifter(const char* op, const SymbSrc& inSrc, const SymbTgt& inTgt, const rm::Coord& tc, const rm::Coord& off, long code) const {
+        if constexpr(SpaceIndexType::IsPeriodic){
+        if(!ctx->checking || !ctx->periodic || ctx->topTree || !ctx->shifterIndex) return;
+        const SpaceIndexType& si = *static_cast<const SpaceIndexType*>(ctx->shifterIndex);
+        using Shifter = TbfPeriodicShifter<RealType, SpaceIndexType>;
+        const long n = 1L << (ctx->height - 1);
+        bool expNeed = false; double expShift[4] = {0, 0, 0, 0};
+        for(int d = 0 ; d < Dim ; ++d){
+            if(tc[d] + off[d] < 0){ expShift[d] = -ctx->boxWidths[d]; expNeed = true; }
+            else if(tc[d] + off[d] >= n){ expShift[d] = ctx->boxWidths[d]; expNeed = true; }
+        }
+        const bool need = Shifter::Neighbor::NeedToShift(inSrc, inTgt, si, code);
+        if(need != expNeed){ std::ostringstream os; os << op << ": TbfPeriodicShifter::NeedToShift says " << (need ? "yes" : "no") << " for target leaf " << tc[0] << "," << tc[1] << "," << tc[2] << " and position code " << code << ", the neighbour " << (expNeed ? "lies" : "does not lie") << " across the periodic boundary"; ctx->error(os.str()); return; }
+        if(need){
+            const auto coef = Shifter::Neighbor::GetShiftCoef(inSrc, inTgt, si, code);
+            for(int d = 0 ; d < Dim ; ++d) if(double(coef[size_t(d)]) != double(RealType(expShift[d]))){
+                std::ostringstream os; os << op << ": TbfPeriodicShifter::GetShiftCoef gives " << double(coef[size_t(d)]) << " in dimension " << d << " for position code " << code << ", the image is displaced by " << expShift[d]; ctx->error(os.str()); return; }
+        }
+        }
+        else{ (void)op; (void)inSrc; (void)inTgt; (void)tc; (void)off; (void)code; }
+    }
+
     template <class LeafSymbolicData, class ParticlesClassValues, class ParticlesClassRhs>
     void P2P(const LeafSymbolicData& inNeighborIndex, const long int neighborsIndexes[], const ParticlesClassValues& inParticlesNeighbors,
              ParticlesClassRhs& inParticlesNeighborsRhs, const long int inNbParticlesNeighbors,
@@ -387,6 +417,7 @@ public:
         if(arrayIndexSrc < 0 || arrayIndexSrc >= rm::ipow(3, Dim)){ if(ctx->checking) ctx->error("P2P: position code out of range"); return; }
         const rm::Coord off = rm::neighborFromCode(Dim, arrayIndexSrc);
         if(ctx->checking) checkNeighbor("P2P", tc, sc, off);
+        checkShifter("P2P", inNeighborIndex, inTargetIndex, tc, off, arrayIndexSrc);
         uint64_t f[gf::NEVAL], fi[gf::NEVAL];
         rm::Coord neg{{0,0,0,0}}; for(int d = 0 ; d < Dim ; ++d) neg[d] = -off[d];
         shiftFactors(off, 1, f); shiftFactors(neg, 1, fi);
@@ -414,6 +445,7 @@ public:
         if(arrayIndexSrc < 0 || arrayIndexSrc >= rm::ipow(3, Dim)){ if(ctx->checking) ctx->error("P2PTsm: position code out of range"); return; }
         const rm::Coord off = rm::neighborFromCode(Dim, arrayIndexSrc);
         if(ctx->checking) checkNeighbor("P2PTsm", tc, sc, off, true);
+        checkShifter("P2PTsm", inNeighborIndex, inTargetIndex, tc, off, arrayIndexSrc);
         uint64_t f[gf::NEVAL]; shiftFactors(off, 1, f);
         gf::Val sumSrc = gf::zero();
         for(long j = 0 ; j < inNbParticlesNeighbors ; ++j){ for(int k = 0 ; k < gf::NEVAL ; ++k) sumSrc.v[k] = gf::add(sumSrc.v[k], ctx->P.weight(k, neighborsIndexes[j], ctx->tagSrc)); sumSrc.cnt += 1; }
